@@ -54,6 +54,13 @@ StepClauses(k, pre, s, removed, prevW, prevP) ==
      \cup (IF s.exc # "" /\ newEdges # {}
            THEN {Tag(k, s.op, "rejected_call_added_edges" \o (IF explained THEN ":as_built_partial_effect" ELSE ":unexplained"))}
            ELSE {})
+     \* an accepted add_blackbox / add_subcircuit wires every connection it was asked for
+     \cup (IF s.exc = "" /\ s.op = "add_blackbox"
+           THEN {Tag(k, s.op, "requested_connection_missing:" \o s.a.conns[j][1]) : j \in {x \in 1..Len(s.a.conns) :
+                   LET pn == s.a.conns[x][1]  tg == Range(s.a.conns[x][2])  pin == Pin(s.a.name, pn) IN
+                   IF pn \in Range(s.a.bb.ins) THEN ~(\A t \in tg : <<t, pin>> \in post.edges)
+                   ELSE IF pn \in Range(s.a.bb.outs) THEN ~(\A t \in tg : <<pin, t>> \in post.edges) ELSE FALSE}}
+           ELSE {})
      \cup (IF s.exc # "" /\ s.op \in MustBeValueError /\ s.exc # "ValueError"
            THEN {Tag(k, s.op, "rejected_with_" \o s.exc)} ELSE {})
      \cup (IF s.op = "add" /\ s.a.uid
